@@ -1,6 +1,6 @@
 (* Lemmas for C06 (model: Suppapitnarm.v, SuppRtbFloat.v; float facts: SuppRtbFloatProofs.v). *)
 From Coq Require Import List ZArith NArith QArith Bool Floats Lia.
-From Crem Require Import Base.Res Dominance DominanceProofs SuppRtbFloat Suppapitnarm.
+From Crem Require Import Base.Res Dominance DominanceProofs NdArchive NdArchiveProofs SuppRtbFloat Suppapitnarm.
 Import ListNotations.
 
 Lemma default_schedule_example :
@@ -33,9 +33,9 @@ Proof.
         -- right; right. split; [exact C|]. exists y. split; [right; exact Hy | exact D].
 Qed.
 
-Lemma split_dominated_incl c a r : split_dominated c a = Ok r -> incl (snd r) a.
+Lemma evict_dominated_incl c a r : evict_dominated a c = Ok r -> incl (snd r) a.
 Proof.
-  revert r. induction a as [|x a IH]; cbn [split_dominated]; intros r H.
+  revert r. induction a as [|x a IH]; cbn [evict_dominated]; intros r H.
   - inversion H. cbn. apply incl_refl.
   - apply bind_ok in H. destruct H as (d & _ & H).
     apply bind_ok in H. destruct H as (r' & Hr' & H).
@@ -44,7 +44,7 @@ Proof.
     + apply incl_cons; [left; reflexivity | apply incl_tl; exact IH].
 Qed.
 
-Lemma drop_dominating_incl c a r : drop_dominating c a = Ok r -> incl r a.
+Lemma drop_dominating_incl c a r : drop_dominating a c = Ok r -> incl r a.
 Proof.
   revert r. induction a as [|x a IH]; cbn [drop_dominating]; intros r H.
   - inversion H. apply incl_refl.
@@ -68,18 +68,20 @@ Lemma attempt_cases a c v a' : attempt a c = Ok (v, a') -> attempt_outcome a c v
 Proof.
   unfold attempt. intros H. apply bind_ok in H. destruct H as (v0 & Hv0 & H).
   destruct (cannot_be_archived_cases a c v0 Hv0) as [C|[[C (x & Hx & D)]|[C (x & Hx & D)]]]; subst v0.
-  - apply bind_ok in H. destruct H as (r & Hr & H).
-    destruct (fst r) eqn:E; inversion H; subst.
-    + apply ao_stored_replacing. eapply split_dominated_incl. exact Hr.
+  - apply bind_ok in H. destruct H as ([any kept] & Hr & H).
+    pose proof (evict_dominated_incl _ _ _ Hr) as Hi. cbn [snd] in Hi.
+    destruct any; inversion H; subst.
+    + apply ao_stored_replacing. exact Hi.
     + apply ao_stored_plain.
   - inversion H; subst. eapply ao_dominated; eassumption.
   - inversion H; subst. eapply ao_duplicate; eassumption.
 Qed.
 
-Lemma force_cases a c a' : force a c = Ok a' -> exists kept, a' = kept ++ [c] /\ incl kept a.
+Lemma force_cases a c f :
+  force a c = Ok f -> fst f = StoredForcingDominatingStateRemoval /\ exists kept, snd f = kept ++ [c] /\ incl kept a.
 Proof.
-  unfold force. intros H. apply bind_ok in H. destruct H as (r & Hr & H). inversion H; subst.
-  exists r. split; [reflexivity | eapply drop_dominating_incl; exact Hr].
+  unfold force. intros H. apply bind_ok in H. destruct H as (r & Hr & H). inversion H; subst. cbn [fst snd].
+  split; [reflexivity|]. exists r. split; [reflexivity | eapply drop_dominating_incl; exact Hr].
 Qed.
 
 Lemma in_app_last {A} (l : list A) x : In x (l ++ [x]).
@@ -103,7 +105,8 @@ Lemma accept_phase_spec p s i v d s1 :
            /\ accprob s1 = accept_prob (p_kind p) (i_es i)
            /\ if decide (accept_prob (p_kind p) (i_es i)) (unitary (i_draw i))
               then d = AcceptUndesirable /\ cur s1 = i_cand i /\ accepted s1 = true
-                   /\ force (arch s) (i_cand i) = Ok (arch s1) /\ In (i_cand i) (arch s1)
+                   /\ force (arch s) (i_cand i) = Ok (StoredForcingDominatingStateRemoval, arch s1)
+                   /\ In (i_cand i) (arch s1)
                    /\ storage s1 = StoredForcingDominatingStateRemoval
               else d = RevertUndesirable /\ cur s1 = cur s /\ arch s1 = arch s /\ accepted s1 = false
                    /\ storage s1 = v).
@@ -117,9 +120,9 @@ Proof.
   - inversion H; subst. cbn. repeat split; auto.
   - inversion H; subst. cbn. repeat split; auto.
   - destruct (decide (accept_prob (p_kind p) (i_es i)) (unitary (i_draw i))) eqn:D.
-    + apply bind_ok in H. destruct H as (a2 & Hf & H). inversion H; subst. cbn.
-      repeat split; auto.
-      destruct (force_cases _ _ _ Hf) as (kept & -> & _). apply in_app_last.
+    + apply bind_ok in H. destruct H as ([fv a2] & Hf & H). inversion H; subst. cbn [fst snd] in *.
+      destruct (force_cases _ _ _ Hf) as (Efv & kept & Ea2 & _). cbn [fst snd] in *. subst fv a2. cbn.
+      repeat split; auto. apply in_app_last.
     + inversion H; subst. cbn. repeat split; auto.
   - inversion H; subst. cbn. repeat split; auto.
 Qed.
@@ -320,7 +323,8 @@ Qed.
 
 Lemma accepted_undesirable_forced p s i v d s1 :
   accept_phase p s i = Ok (v, d, s1) -> d = AcceptUndesirable ->
-  cur s1 = i_cand i /\ force (arch s) (i_cand i) = Ok (arch s1) /\ In (i_cand i) (arch s1)
+  cur s1 = i_cand i /\ force (arch s) (i_cand i) = Ok (StoredForcingDominatingStateRemoval, arch s1)
+  /\ In (i_cand i) (arch s1)
   /\ storage s1 = StoredForcingDominatingStateRemoval /\ accepted s1 = true.
 Proof.
   intros H Hd. destruct (accept_phase_spec _ _ _ _ _ _ H) as (_ & _ & R).
@@ -343,9 +347,6 @@ Lemma accept_leaves_schedule p s i v d s1 :
   accept_phase p s i = Ok (v, d, s1) ->
   until s1 = until s /\ stepf s1 = stepf s /\ iter s1 = iter s /\ last_rtb s1 = last_rtb s /\ temp s1 = temp s.
 Proof. intros H. destruct (accept_phase_spec _ _ _ _ _ _ H) as (_ & R & _). exact R. Qed.
-
-Lemma acts_eqb_refl a : acts_eqb a a = true.
-Proof. induction a as [|b a IH]; cbn; [reflexivity|]. rewrite IH. destruct b; reflexivity. Qed.
 
 (* at the level of a whole iteration, when no return-to-base fires *)
 Lemma iteration_current p s i o s' :
